@@ -10,6 +10,7 @@ import (
 	"sort"
 	"strings"
 
+	"golang.org/x/tools/go/packages"
 	"golang.org/x/tools/go/ssa"
 )
 
@@ -50,6 +51,30 @@ func (w *World) discipline() *Discipline {
 		pkgs = append(pkgs, p)
 	}
 	sort.Slice(pkgs, func(i, j int) bool { return pkgs[i].Path < pkgs[j].Path })
+	// One global order over the lock classes of all packages: the locks of an importing package rank
+	// below (are taken before) those of the packages it imports - a caller may hold its own lock while
+	// calling down (server: sessionsM around (*Session).Close), never the other way round, since an
+	// imported package cannot call up except through function values, whose contracts say holdsNone().
+	reach := map[string]int{}
+	for _, p := range pkgs {
+		seen := map[string]bool{}
+		var walk func(pp *packages.Package)
+		walk = func(pp *packages.Package) {
+			for path, ip := range pp.Imports {
+				if !seen[path] {
+					seen[path] = true
+					walk(ip)
+				}
+			}
+		}
+		walk(p.PP)
+		for _, q := range pkgs {
+			if seen[q.Path] {
+				reach[p.Path]++
+			}
+		}
+	}
+	sort.SliceStable(pkgs, func(i, j int) bool { return reach[pkgs[i].Path] > reach[pkgs[j].Path] })
 	qualify := func(p *Pkg, s string) string {
 		s = strings.TrimSpace(s)
 		if strings.Count(s, ".") >= 2 && w.pkgByName(strings.SplitN(s, ".", 2)[0]) != nil {
